@@ -907,3 +907,85 @@ def _c01_group_partials(rng, tier, kind):
             if len(out) >= 5:
                 return out
     return out
+
+
+# ---------------------------------------------------------------------------------------
+# C03 at group level: change ONE independent input of a live assembled model at a time and compare with a fresh model
+# ---------------------------------------------------------------------------------------
+def _all_outputs(prob):
+    vals = []
+    for name, meta in prob.model.list_outputs(out_stream=None, val=True):
+        v = np.atleast_1d(np.array(meta["val"], dtype=float)).ravel()
+        vals.append((name, v))
+    return vals
+
+
+@oracle("C03", "single_input_history_groups")
+def c03_single_input_history(rng, tier):
+    """a live AerostructPoint / AeroPoint / SpatialBeamAlone / AtmosGroup is re-run after changing one independent input only
+    (flight condition, load factor, one design-variable vector, …); every output of every subsystem must equal the one of
+    a freshly built model at the same inputs (a cache keyed on a subset of the inputs goes stale here)"""
+    import openmdao.api as om
+    from . import oracles as _o
+    kind = ["aerostruct", "atmos", "struct", "aero"][_o.CURRENT_K % 4]
+    if kind == "aerostruct":
+        s = _as_surface(rng, tier, fem="random", struct_weight_relief=True, chord_cp=np.array([1.0, 1.0]))
+        flow = _as_flow(rng)
+        build = lambda: pipelines.build_aerostruct([s], [flow])
+        names = ["alpha", "v", "rho", "Mach_number", "load_factor", "wing.twist_cp", _thk(s)[0], "W0", "R", "CT"]
+    elif kind == "aero":
+        from .oracles_aero import _aero_config, _flow
+        surfaces = _aero_config(rng, tier, ns=int(rng.choice([1, 2])))
+        for x in surfaces:
+            x["with_viscous"] = True; x["with_wave"] = bool(rng.integers(2))
+        fl = _flow(rng, Mach_number=float(rng.uniform(0.3, 0.8)))
+        comp = bool(rng.integers(2))
+        build = lambda: pipelines.build_aero_point(surfaces, fl, compressible=comp)
+        names = ["alpha", "v", "rho", "Mach_number", "re", "cg", "beta"] + [x["name"] + "_def_mesh" for x in surfaces]
+    elif kind == "struct":
+        fem = str(rng.choice(["tube", "wingbox"]))
+        s = _as_surface(rng, tier, fem=fem, struct_weight_relief=True)
+        loads = rng.normal(size=(s["mesh"].shape[1], 6)) * 1e4
+        build = lambda: pipelines.build_struct_alone(s, loads)
+        names = ["loads", "load_factor", _thk(s)[0]]
+    else:
+        from openaerostruct.common.atmos_group import AtmosGroup
+        alt0 = float(rng.uniform(1000, 12000))
+        def build():
+            p = om.Problem(reports=False)
+            ivc = om.IndepVarComp(); ivc.add_output("altitude", val=alt0, units="m"); ivc.add_output("Mach_number", val=0.5)
+            p.model.add_subsystem("ivc", ivc, promotes=["*"]); p.model.add_subsystem("atmos", AtmosGroup(), promotes=["*"])
+            with quiet():
+                p.setup()
+            return p
+        names = ["Mach_number", "altitude"]
+    live = build()
+    with quiet():
+        live.run_model()
+    out = []
+    order = [names[int(i)] for i in rng.permutation(len(names))][:4]
+    state = {}
+    for nm in order:
+        try:
+            x0 = np.array(live.get_val(nm), dtype=float)
+        except Exception:
+            continue
+        x1 = x0 * (1.0 + 0.15 * rng.uniform(-1, 1, size=x0.shape)) + (0.05 if np.all(x0 == 0) else 0.0)
+        state[nm] = x1
+        with quiet():
+            live.set_val(nm, x1); live.run_model()
+        fresh = build()
+        with quiet():
+            for k2, v2 in state.items():
+                fresh.set_val(k2, v2)
+            fresh.run_model()
+        a = dict(_all_outputs(live)); b = dict(_all_outputs(fresh))
+        for name in a:
+            if name in b and a[name].shape == b[name].shape:
+                sc = max(float(np.max(np.abs(b[name]))) if b[name].size else 0.0, 1e-30)
+                if np.max(np.abs(a[name] - b[name])) > 1e-6 * sc + 1e-12:
+                    out.append(_fail("after changing only '%s' on a live model an output differs from a freshly built model at the same inputs" % nm,
+                                     "%s: %s" % (name, a[name][:3]), "%s" % b[name][:3], model=kind, changed_input=nm, output=name,
+                                     sequence=list(state)))
+                    return out
+    return out
